@@ -164,6 +164,8 @@ def to_number(value: JSValue) -> Union[int, float]:
         return value
     if isinstance(value, str):
         return _string_to_number(value)
+    if isinstance(value, JSArray):
+        return _string_to_number(to_string(value))
     # TODO: Handle objects with valueOf
     return float("nan")
 
@@ -174,6 +176,36 @@ def norm_number(n: Union[int, float]) -> Union[int, float]:
     if type(n) is int and not -9007199254740992 <= n <= 9007199254740992:
         return float(n)
     return n
+
+
+def to_integer(value: JSValue) -> Union[int, float]:
+    """ToIntegerOrInfinity: NaN becomes 0, infinities stay, everything else is truncated."""
+    n = to_number(value)
+    if isinstance(n, float):
+        if math.isnan(n):
+            return 0
+        if math.isinf(n):
+            return n
+        return int(n)
+    return n
+
+
+def clamp_index(value: JSValue, length: int, default: int) -> int:
+    """An optional position argument clamped to 0..length (undefined means default)."""
+    if value is UNDEFINED:
+        return default
+    n = to_integer(value)
+    return int(min(max(n, 0), length))
+
+
+def relative_index(value: JSValue, length: int, default: int) -> int:
+    """An optional slice-style argument: negative counts from the end, clamped to 0..length."""
+    if value is UNDEFINED:
+        return default
+    n = to_integer(value)
+    if n < 0:
+        return int(max(length + n, 0))
+    return int(min(n, length))
 
 
 def js_pow(base: Union[int, float], exponent: Union[int, float]) -> float:
@@ -245,6 +277,12 @@ def to_string(value: JSValue) -> str:
         return _double_to_string(value)
     if isinstance(value, str):
         return value
+    if isinstance(value, JSArray):
+        # Array.prototype.toString: join with commas (null/undefined elements are empty)
+        return ",".join(
+            "" if item is UNDEFINED or item is NULL else to_string(item)
+            for item in value._elements
+        )
     # TODO: Handle objects with toString
     return "[object Object]"
 
@@ -435,18 +473,32 @@ class JSRegExp(JSObject):
         self.set("lastIndex", value)
         self._internal.lastIndex = value
 
+    def _start_index(self) -> int:
+        """ToLength(lastIndex): whatever the script stored there, as a usable position."""
+        n = to_number(self.get("lastIndex"))
+        if isinstance(n, float):
+            if math.isnan(n) or n <= 0:
+                return 0
+            n = int(min(n, 2**53 - 1))
+        return max(n, 0)
+
+    def exec_match(self, string: str):
+        """RegExpBuiltinExec: the engine's match result, with the lastIndex protocol
+        (only global/sticky regexps read and write the script-visible lastIndex)."""
+        uses_last_index = "g" in self._flags or "y" in self._flags
+        self._internal.lastIndex = self._start_index() if uses_last_index else 0
+        result = self._internal.exec(string)
+        if uses_last_index:
+            self.set("lastIndex", self._internal.lastIndex)
+        return result
+
     def test(self, string: str) -> bool:
         """Test if the pattern matches the string."""
-        self._internal.lastIndex = self.lastIndex
-        result = self._internal.test(string)
-        self.lastIndex = self._internal.lastIndex
-        return result
+        return self.exec_match(string) is not None
 
     def exec(self, string: str):
         """Execute a search for a match."""
-        self._internal.lastIndex = self.lastIndex
-        result = self._internal.exec(string)
-        self.lastIndex = self._internal.lastIndex
+        result = self.exec_match(string)
 
         if result is None:
             return NULL
